@@ -5,10 +5,10 @@ from . import core, decl, dyn, fieldgen, dcsuite, parsesuite, findings
 PID = "C06"
 
 
-def declare_pair(rng):
+def declare_pair(rng, small=False, first_feats=None):
     """the same random class twice, with data_first_search=True and =False"""
     for _ in range(30):
-        name, src, fields, okw = fieldgen.rand_class(rng)
+        name, src, fields, okw = fieldgen.small_class(rng, first_feats) if small else fieldgen.rand_class(rng)
         okw = {k: v for k, v in okw.items() if k != "data_first_search"}
         names = []
         try:
@@ -130,6 +130,15 @@ def gen_cases(rng, nclasses, per):
         names, src, fields, okw = declare_pair(rng)
         for _ in range(per):
             cases.append(dict(names=names, src=src, okw=okw, fields=fields, data=rand_input(rng, fields)))
+    pairs = fieldgen.feature_pairs()
+    rng.shuffle(pairs)
+    for feats in pairs * (2 if nclasses < 1000 else 8):
+        try:
+            names, src, fields, okw = declare_pair(rng, small=True, first_feats=feats)
+        except RuntimeError:
+            continue
+        for data in fieldgen.state_inputs(rng, fields, limit=30):
+            cases.append(dict(names=names, src=src, okw=okw, fields=fields, data=data))
     return cases
 
 
@@ -228,17 +237,18 @@ def main(tier, seed):
     findings.replay_all(res, PID, {"C06-ignore-conflicts-winner": finding_ignore_conflicts,
                                    "C06-equal-not-identical": finding_equal_not_identical})
     rng = random.Random(seed * 131 + 6)
-    ncls, per = (150, 8) if tier == "quick" else (1500, 12)
+    ncls, per = (90, 8) if tier == "quick" else (1500, 12)
     cases = gen_cases(rng, ncls, per)
     # model against implementation, once per strategy
     mcases = []
-    for c in cases:
+    sample = cases if tier != "quick" else [c for i, c in enumerate(cases) if i % 3 == 0]
+    for c in sample:
         mcases.append(dict(cls=c["names"][0], ropts=None, data=c["data"]))
         mcases.append(dict(cls=c["names"][1], ropts=None, data=c["data"]))
     dcsuite.run_suite(res, mcases, "fields-both-strategies",
                       rule="random data classes over the Field parameters and class Options, declared once per strategy; inputs over "
                            "names, aliases, letter-case variants, repeated names with equal / different / ==-but-different values, extra keys")
-    hypotheses_suite(res, cases)
+    hypotheses_suite(res, sample)
     # the property on the implementation
     outs = core.pool_map(oracle, cases)
     bad, known = [], {}
